@@ -373,6 +373,14 @@ def rule_find_mapping(ctx, R="C06/find-mapping", fn="find_mapping", system_range
               "the scan predicate is not %s, e.g. at start=%#x size=%#x address=%#x" % ((what,) + ((bad[0]["S"], bad[0]["Z"], bad[0]["A"]) if bad else (0, 0, 0))))
 
 
+def _subst_params(e, args):
+    if isinstance(e, tuple):
+        if len(e) == 2 and e[0] == "param" and isinstance(e[1], int):
+            return args[e[1] - 1] if 0 < e[1] <= len(args) else e
+        return tuple(_subst_params(x, args) for x in e)
+    return e
+
+
 def bool_fn_truth(prog, body, leaf, depth=0):
     """truth of a bool-returning function/closure under `leaf` (expr -> int/bool or None): OR over the definitions of the return
     place (assignments and call destinations) of (path condition of the defining block) AND (defined value)"""
@@ -402,6 +410,20 @@ def bool_fn_truth(prog, body, leaf, depth=0):
             if cl[0] == "closure" and opt is not None and prog.by_short.get(cl[1]):
                 inner = bool_fn_truth(prog, prog.by_short[cl[1]][0], leaf, depth + 1)
                 return (int(bool(opt[0]) and inner), "bool")
+        # `(a..b).contains(&x)` / `(a..=b).contains(&x)`
+        if e_[0] == "call" and e_[1].split("::")[-1] == "contains" and "ops::Range" in e_[1] and len(e_[2]) == 2:
+            rg = strip(e_[2][0])
+            if rg[0] == "agg" and rg[2] in ("Range", "RangeInclusive"):
+                fs = dict(rg[3])
+                lo, hi, x = ev.val(core(fs["start"]))[0], ev.val(core(fs["end"]))[0], ev.val(core(e_[2][1]))[0]
+                return (int(lo <= x < hi if rg[2] == "Range" else lo <= x <= hi), "bool")
+        # a small local getter (`fn end_address(&self) -> usize { self.start_address + self.size }`): its one return expression with
+        # the arguments substituted
+        if e_[0] == "call" and e_[1] in prog.by_short and depth < 3:
+            from engine.summ import return_origins
+            ro = return_origins(prog, e_[1]) or []
+            if len(ro) == 1 and prog.by_short[e_[1]][0].locals[0]["ty"] != "bool":
+                return ev.val(core(_subst_params(ro[0], e_[2])))
         return None
     ev = ipe.Eval({}, {}, leaf=full_leaf)
     out = False
@@ -669,3 +691,7 @@ def run(ctx):
     from rules import c17
     c17.rule_args(ctx, R="C06/reader-args")
     c17.rule_prefix_only(ctx, R="C06/reader-prefix-only")
+    # a readable stack is left empty only when the caller asked for unreferenced stacks to be skipped (same rule instance as C20/decision-shape:
+    # with skip off the truth table has no dropping row)
+    from rules import c20
+    c20.rule_decision_shape(ctx, R="C06/dropped-only-on-request")
